@@ -18,7 +18,7 @@ func init() {
 		ID:          "C20",
 		Explanation: "Decided: (key) every configuration field of BuildCache except the tested-package marker, and the import path, flow into the cache key (fields enumerated from the struct type, so a new unkeyed field is reported), Store and Load derive the file name from the same key function; (atomic) the final path is only ever the target of os.Rename, which is reached only after serialisation succeeded and the temporary file was closed, the temporary is removed on the error path, and no other call in the package creates or writes a file; (stale) the stored build time is compared with the source modification time before the payload is decoded, Load reports a hit only on the no-error, not-old path, gzip close errors (checksum) become the result error; (test) the package-under-test exclusion precedes every file operation; (codec) every concrete go/ast node type that can sit in an interface-typed field is registered with gob, Write and Read touch the same fields in the same order, and the caller uses the loaded object only when Load returned true. NOT decided: round-trip equality of ASTs, behaviour under truncation at every offset (gzip/gob trusted), crash points inside os.Rename.",
 		Assumptions: []string{"os.Rename is atomic on the cache file system", "compress/gzip verifies the checksum when the stream is read to its end and closed", "encoding/gob reports truncated input as an error"},
-		Rules:       []RuleFunc{ruleC20Key, ruleC20Atomic, ruleC20Stale, ruleC20Codec, ruleC20ModTime, ruleC20PrepareNoAlias},
+		Rules:       []RuleFunc{ruleC20Key, ruleC20Atomic, ruleC20Stale, ruleC20Codec, ruleC20ModTime, ruleC20PrepareNoAlias, ruleC20MonotoneModTime},
 	})
 }
 
